@@ -43,6 +43,31 @@ def gen_case(seed, tier="quick"):
             dom = {"k": "rot", "d": dom, "ang": ["aff", GG.q(r.uniform(-3, 3)), GG.q(r.uniform(0.25, 1.5), 16.0), "s"],
                    "around": [GG.q(r.uniform(-1, 1)), GG.q(r.uniform(-1, 1))]}
         pspace = pspace + [["s", 1]]
+    if r.random() < 0.45:
+        # one shape parameter depends on BOTH variables: fixing one of them leaves a partially
+        # bound function (the deep-copy branch of UserFunction.partially_evaluate)
+        done = [False]
+
+        def both(node):
+            for key in ("r", "a", "b"):
+                E = node.get(key)
+                if not done[0] and isinstance(E, list) and E[0] == "aff" and E[3] == "t":
+                    node[key] = ["aff2", E[1], E[2], "t", GG.q(r.uniform(0.05, 0.2), 64.0), "s"]
+                    done[0] = True
+            for key in ("c", "o", "c1", "c2", "v"):
+                Es = node.get(key)
+                if isinstance(Es, list):
+                    for i, E in enumerate(Es):
+                        if not done[0] and isinstance(E, list) and E[0] == "aff" and E[3] == "t" and key in ("c", "v"):
+                            Es[i] = ["aff2", E[1], E[2], "t", GG.q(r.uniform(0.05, 0.3), 64.0), "s"]
+                            done[0] = True
+            for c in G.children(node):
+                both(c)
+        import copy as _copy
+        dom = _copy.deepcopy(dom)
+        both(dom)
+        if done[0] and ["s", 1] not in pspace:
+            pspace = pspace + [["s", 1]]
     full = {v: GG.q(r.uniform(0, 1)) for v, _ in pspace}
     names = [v for v, _ in pspace]
     steps = []
